@@ -7,8 +7,9 @@ Engine   ENUM: per accessor family a small ABNF-derived grammar enumerated to a 
          directly; base values additionally travel through falcon.App / falcon.asgi.App.
 Families content-length | range | dates | etags | cookies | forwarded | x-forwarded combos | host/URL |
          accept | header-name lookup | response round trip   (alphabets: the F* classes below)
-Bound    quick: grammar depth 2, mutants of depth-1 bases; thorough: depth 3, mutants of depth-1 and
-         (most) depth-2 bases.  Counts are written to the evidence file (`bounds`).
+Bound    quick: grammar depth 2, mutants of depth-1 bases (~3.7e4 values); thorough: depth 3, mutants of
+         depth-1 and (most) depth-2 bases, and all edit-distance-2 mutants of a few short bases
+         (~7e5 values).  Counts per family are written to the evidence file (`bounds`).
 Oracle   mc.props.c09_oracle (own RFC parsers, no falcon imports) says VALID(v) or INVALID:
            VALID   => the accessor returns exactly v (a few documented alternatives where the RFC
                       leaves the representation open: IPv6 brackets, quoted cookie values, proto case)
@@ -334,7 +335,10 @@ class FContentLength(Family):
                  '\xb2', '5, 5', 'abc', '١', '1' * 4300, '9' * 4301]
         bases = [b for b in bases if all(ord(c) < 256 for c in b)]
         mut = [b for b in bases if len(b) <= 20]
-        return G.with_mutants(bases, mut), len(bases)
+        vals = G.with_mutants(bases, mut)
+        if not self.quick:
+            vals = G.with_mutants2(vals, ['5', '42', '007'])
+        return vals, len(bases)
 
     def case(self, v, is_base):
         verdict = O.content_length(v)
@@ -365,7 +369,10 @@ class FRange(Family):
         if not self.quick:
             s2 = [a + '-' + b for a in ints[:3] for b in ints[:3]] + [a + '-' for a in ints[:3]] + ['-' + a for a in ints[:3]]
             mut += ['bytes=' + a + sep + b for a in s2 for b in s2 for sep in (',', ', ')]
-        return G.with_mutants(bases, mut), len(bases)
+        vals = G.with_mutants(bases, mut)
+        if not self.quick:
+            vals = G.with_mutants2(vals, ['bytes=0-5', 'bytes=5-', 'bytes=-5'])
+        return vals, len(bases)
 
     def case(self, v, is_base):
         vr = O.range_(v)
@@ -459,6 +466,8 @@ class FEtags(Family):
         else:
             mut = d2 + specials
         vals = G.with_mutants(bases, mut)
+        if not self.quick:
+            vals = G.with_mutants2(vals, atoms[:3] + ['*'])
         out = [(v, w) for v in vals[:len(bases)] for w in (0, 1)]
         nb = len(out)
         # the same list sent as two header lines (the gateway / falcon must join them)
@@ -509,8 +518,12 @@ class FCookies(Family):
         if self.quick:
             mut = pairs[:8] + [a + '=1; ' + b + '=2']
         else:
-            mut = pairs + [x + sep + y for x in good for y in good for sep in ('; ', ';')] + specials
-        return G.with_mutants(bases, mut), len(bases)
+            ok = [n + '=' + v for n in (a, b) for v in vals]
+            mut = pairs + [x + sep + y for x in ok for y in ok for sep in ('; ', ';')] + specials
+        out = G.with_mutants(bases, mut)
+        if not self.quick:
+            out = G.with_mutants2(out, [a + '=1', a + '="q"'])
+        return out, len(bases)
 
     def case(self, v, is_base):
         a, b = self.n['ck1'], self.n['ck2']
@@ -718,6 +731,8 @@ class FHost(Family):
         else:
             mut = hp + specials[:14]
         vals = G.with_mutants(bases, mut)
+        if not self.quick:
+            vals = G.with_mutants2(vals, [n['single'] + ':80', '[::1]:80'])
         out = []
         cfgs = [('http', '', '/', ''), ('https', '/app', '/a/b', 'x=1')]
         for i, v in enumerate(vals):
